@@ -164,9 +164,36 @@ def r7_memory(ctx):
             ctx.ok("C01.R7", loc(fi2), "read path: same key function, the buffer's own decoder, value returned")
 
 
+def r8_events_returned(ctx):
+    """C01.R8: Bridge.recv_events returns every received event (publications and fetched payloads) in order, and nothing else."""
+    from ..evalx import AnyKeyDict
+    repo = ctx.repo
+    fi = repo.func(f"{BR}.recv_events")
+    ctx.analysed(fi.qual)
+    M = "cascade.executor.msg."
+    pub = Obj(M + "DatasetPublished", {"origin": worker("H1"), "ds": ds("D", "T"), "transmit_idx": None}, name="PUB")
+    hdr = Obj(M + "DatasetTransmitPayloadHeader", {"ds": ds("D", "T"), "deser_fun": "f", "confirm_idx": 1, "confirm_address": "a"})
+    pay = Obj(M + "DatasetTransmitPayload", {"header": hdr, "value": b"x"}, name="PAY")
+    ack = Obj(M + "Ack", {"idx": 1}, name="ACK")
+    msgs = [pub, ack, pay]
+    ip = Interp(repo, max_while=2, max_iter=0, call_models={
+        "cascade.executor.comms.Listener.recv_messages": lambda run, a, k, n, f: list(msgs) if not getattr(run, "model_sent", False) and not setattr(run, "model_sent", True) else []})
+    env = {"self.heartbeat_checker": AnyKeyDict(True, Obj("cascade.executor.comms.GraceWatcher", {}, name="gw"), "heartbeat_checker"), "self.sender.hosts": {}}
+    paths = ip.explore(fi, env=env)
+    ctx.evals(len(paths))
+    for p in paths:
+        got = [getattr(x, "name", vkey(x)) for x in p.exit[1]] if p.exit[0] == "return" and isinstance(p.exit[1], list) else None
+        if got != ["PUB", "PAY"]:
+            ctx.violation("C01.R8", fi.qual, loc(fi), "events returned",
+                          f"messages received (DatasetPublished, Ack, DatasetTransmitPayload): recv_events yields {got if got is not None else p.exit[0]}; expected the two events in order "
+                          f"(a dropped event means a task is never marked done / a requested output never arrives)")
+        else:
+            ctx.ok("C01.R8", loc(fi), "recv_events returns exactly the received events, in order")
+
+
 def r2_fetch_on_publication(ctx):
     r6_fetch_queue(ctx)
 
 
-RULES = [r_predicates, r2_fetch_on_publication, r3_r4_flush, r4_output_store, r5_commands, r3_binding, r4_r6_outputs, r7_memory,
+RULES = [r8_events_returned, r_predicates, r2_fetch_on_publication, r3_r4_flush, r4_output_store, r5_commands, r3_binding, r4_r6_outputs, r7_memory,
          r5_act, r8_publication_fanout]
